@@ -128,9 +128,9 @@ proof!(lhs_get_index__owned_n2, 5, get_index::<2, false>());
 proof!(lhs_get_index__borrowed_n2, 5, get_index::<2, true>());
 proof!(lhs_get_index__owned_n3, 6, get_index::<3, false>());
 proof!(lhs_extract_index__owned_n0, 3, extract_index::<0, false, false>());
-proof!(lhs_extract_index__owned_n2, 5, extract_index::<2, false, false>());
+proof!(lhs_extract_index__owned_n1, 2, extract_index::<1, false, false>());
 proof!(lhs_extract_index__borrowed_n2, 5, extract_index::<2, true, false>());
-proof!(lhs_extract_nested1__owned_n2, 5, extract_index::<2, false, true>());
+proof!(lhs_extract_nested1__owned_n1, 2, extract_index::<1, false, true>());
 proof!(lhs_extract_nested1__borrowed_n2, 5, extract_index::<2, true, true>());
 
 /// Kind mismatches: an integer index on a non-array, a key on a non-map, [*] on
@@ -262,7 +262,7 @@ fn extract_nested_ragged<const BORROWED: bool>() {
 }
 
 proof!(extract_nested__ragged_borrowed, 5, extract_nested_ragged::<true>());
-proof!(extract_nested__ragged_owned, 5, extract_nested_ragged::<false>());
+proof!(extract_nested__ragged_owned, 3, extract_nested_ragged::<false>());
 
 /// A key on an EMPTY map and on an absent row: no value (maps with entries need
 /// BTreeMap insertion, which is out of CBMC's reach - see unverified).
